@@ -253,6 +253,16 @@ def _session(res, pid, tier, seed, out, also=()):
             if os.path.exists(scripts + "." + ts): f.write(open(scripts + "." + ts).read())
     nscripts = sum(1 for _ in open(scripts)) if os.path.exists(scripts) else 0
     if nscripts == 0: raise Infra("MC_Session emitted no behaviours")
+    # vacuity guard (TLC's own -coverage is unusable here: with the recursive grammar operators it exhausts the heap):
+    # every action of the machine must occur in the behaviours TLC enumerated
+    ops = {}
+    for l in open(scripts):
+        v = json.loads(l)
+        if isinstance(v, str): v = json.loads(v)
+        for a in v["script"]: ops[a["op"]] = ops.get(a["op"], 0) + 1
+    missing = [o for o in ("buf", "parse", "own", "norm", "add", "rem", "free", "scribble") if not ops.get(o)]
+    if missing: raise Infra("MC_Session never took action(s) %s: the model is vacuous for them" % missing)
+    res.coverage["actions_in_enumerated_behaviours"] = ops
     # spec -> code: every behaviour TLC found is replayed through the real library, the final state compared natively, the events validated again
     h = vlib.run_harness(exe, ["session", "--mode", "script", "--script", scripts, "--seed", str(seed), "--tier", tier], out, "sscript", timeout=3000)
     res.violations += harness_crash_violations(h, pid)
@@ -506,4 +516,10 @@ def replay(pid, path):
         n, rej = vlib.validate(v["spec"], [t])
         print("re-validated recorded event against %s: %s" % (v["spec"], "REJECTED " + json.dumps(rej[0]["fails"]) if rej else "accepted"))
         return 1 if rej else 0
-    return 0
+    # violations found natively (graph walker, crash of the driver) carry the case, not an event: re-run the check that produced them
+    tier = os.environ.get("VERIF_TIER", "quick")
+    print("no recorded event in this replay file: re-running check %s (%s tier) against the current tree" % (pid, tier))
+    res = CHECKS[pid](tier, int(os.environ.get("VERIF_SEED", "1")))
+    new, known = triage(pid, res.violations, vlib.known_findings())
+    for v in new[:5]: print("still violated:", str(v.get("why", ""))[:300])
+    return 1 if new else 0
